@@ -596,7 +596,7 @@ theorem C03_HS_U_prefix_complete (E : UHS.Env U π) (rank : UHS.UNT U → Nat) (
     (hnf : ∀ p, E.filter p = true) (fuel k : Nat) (s' : UHS.St U π) (out : List Prog) (b : Bool)
     (h : UHS.take E fuel k (UHS.St.empty E.G) [] = some (s', out, b)) (p q : Prog) (hq : q ∈ out) (kp kq : π)
     (hkp : StartKey E p kp) (hkq : StartKey E q kq) (hlt : E.ops.lt kp kq = true) : p ∈ out :=
-  take_prefix_complete R hnf fuel k s' out b h p q hq kp kq hkp hkq hlt
+  take_prefix_complete R fuel k s' out b h p q hq kp kq hkp hkq hlt (PS.HG.clean_of_all E.filter hnf p)
 
 /-- the statement of C03 for `UHeapSearch` in terms of the specification: in a prefix `l1 ++ q :: l2` of the
     enumeration, every member of probability `U.probU` strictly larger than that of `q` is in `l1` — once a
